@@ -25,6 +25,21 @@ func unhex(s string) ([]byte, bool) {
 	return b, err == nil
 }
 
+// safe renders a byte string that travels in the line protocol: verbatim when it only holds
+// unproblematic printable characters, hex (prefixed 0x) otherwise
+func safe(b []byte) string {
+	if len(b) == 0 {
+		return "0x"
+	}
+	for _, c := range b {
+		ok := (c >= 'a' && c <= 'z') || (c >= 'A' && c <= 'Z') || (c >= '0' && c <= '9') || strings.IndexByte("/_+#$.-!", c) >= 0
+		if !ok {
+			return "0x" + hex.EncodeToString(b)
+		}
+	}
+	return string(b)
+}
+
 func showHex(b []byte) string {
 	if len(b) == 0 {
 		return "-"
